@@ -352,6 +352,13 @@ pub fn run(ctx: &Ctx, st: &mut Stats) {
             st.sample(|| json!(c));
         }
         n += 1;
+        if n % 40 == 7 {
+            // fault injection: a range call that panics inside the parallel branch (a Params value with a missing
+            // key), caught; the valid parallel calls that follow must be unaffected
+            verif::set_parallelism_override(0);
+            super::out_of_domain_calls(3);
+            st.count("fault_injection.out_of_domain_call_groups");
+        }
         check(ctx, st, &c);
         if parallel_expected {
             st.nontrivial_key(hash64(&format!("{:?}", (w, d, t))));
@@ -414,6 +421,78 @@ pub fn run(ctx: &Ctx, st: &mut Stats) {
         check(ctx, st, &c);
         st.count("runs.long_range_high_latitude_default_policy");
         st.nontrivial_key(hash64(&format!("{:?}", (c.workers, c.days, c.pseed))));
+    }
+    // several CALLERS at once in one process (a service answering requests on a thread pool): every call must
+    // still return the sequential result, and none may block another forever
+    for k in 0..ctx.pick(2, 24) {
+        if st.extra.contains_key("aborted_after_deadlock") {
+            break;
+        }
+        let callers = r.int(5, 12) as usize;
+        let w = *r.pick(&[4usize, 8, 16]);
+        verif::set_parallelism_override(w);
+        verif::set_perturbation(0, 0);
+        let jobs: Vec<(Site, usize, chrono::NaiveDate, i64)> = (0..callers)
+            .map(|_| (site(&mut r), r.int(1, 8) as usize, from_ce(r.int(day_lo() as i64, day_hi() as i64 - 500) as i32), r.int(w as i64, 6 * w as i64)))
+            .collect();
+        let (tx, rx) = mpsc::channel();
+        let barrier = std::sync::Arc::new(std::sync::Barrier::new(callers));
+        for (i, (s, m, start, days)) in jobs.iter().cloned().enumerate() {
+            let tx = tx.clone();
+            let b = barrier.clone();
+            std::thread::spawn(move || {
+                let mut p = Params::new(METHODS[m]);
+                p.extreme_latitude_method = ExtremeLatitudeMethod::None;
+                let dr = DateRange::from(start..=from_ce(ce(start) + days as i32 - 1));
+                let expected = prayer_times_dt_rng(&p, s.loc(), &dr);
+                b.wait();
+                let mut ok = true;
+                let mut pm = String::new();
+                for _ in 0..6 {
+                    match catch_unwind(AssertUnwindSafe(|| prayer_times_dt_rng_block(&p, s.loc(), &dr, 0))) {
+                        Ok(got) => ok &= got == expected,
+                        Err(_) => {
+                            ok = false;
+                            pm = LAST_PANIC.with(|p| p.borrow().clone());
+                        }
+                    }
+                }
+                let _ = tx.send((i, ok, pm));
+            });
+        }
+        drop(tx);
+        let mut finished = 0usize;
+        let mut last = Instant::now();
+        let stall_s: f64 = std::env::var("VERIF_DEADLOCK_S").ok().and_then(|s| s.parse().ok()).unwrap_or(20.0);
+        let desc = json!({"concurrent_callers": callers, "workers": w, "jobs": jobs.iter().map(|j| json!({"site": j.0, "method": j.1, "start": d2s(j.2), "days": j.3})).collect::<Vec<_>>()});
+        while finished < callers {
+            match rx.recv_timeout(Duration::from_millis(200)) {
+                Ok((i, ok, pm)) => {
+                    finished += 1;
+                    last = Instant::now();
+                    st.evaluations += 6;
+                    if !ok {
+                        st.violate(if pm.is_empty() { "parallel_differs_from_sequential" } else { "panic" }, &desc, json!({"caller": i, "panic": pm, "under": "concurrent callers"}));
+                    }
+                }
+                Err(mpsc::RecvTimeoutError::Disconnected) => break,
+                Err(mpsc::RecvTimeoutError::Timeout) => {
+                    if last.elapsed().as_secs_f64() > stall_s && all_other_threads_sleeping() {
+                        st.violate("deadlock", &desc, json!({"why": "concurrent callers: no caller finished for the stall window and every thread is asleep", "callers_finished": finished, "callers": callers}));
+                        st.extra.insert("aborted_after_deadlock".into(), json!(true));
+                        break;
+                    }
+                    if last.elapsed().as_secs_f64() > 600.0 {
+                        st.count("inconclusive.wall_clock_watchdog");
+                        st.extra.insert("aborted_after_deadlock".into(), json!(true));
+                        break;
+                    }
+                }
+            }
+        }
+        st.decided += 1;
+        st.count("runs.concurrent_callers_groups");
+        st.nontrivial_key(hash64(&format!("cc{:?}{}", (callers, w, k), ctx.shard)));
     }
     // long injected delays (tens of ms) on small configurations: timing-based termination conditions
     // (recv_timeout, polling collectors, "wait a bit then stop") only show when a worker is late
